@@ -33,7 +33,9 @@ fn ksp_algos(yens: bool, tier: Tier) -> Vec<(Algo, Option<usize>)> {
     let ks: Vec<usize> = tier.pick(vec![1, 2, 3], vec![1, 2, 3, 4]);
     // thresholds at and beyond 1 are legal configurations: nothing is "too similar" any more, but the returned routes must still be distinct
     let sims: Vec<Option<Sim>> = vec![None, Some(Sim::AcceptAll), Some(Sim::EdgeCos(0.3)), Some(Sim::EdgeCos(0.99)), Some(Sim::DistCos(0.5)), Some(Sim::EdgeCos(1.0)), Some(Sim::DistCos(1.5))];
-    let terms: Vec<Option<KTerm>> = tier.pick(vec![None, Some(KTerm::Factor(2))], vec![None, Some(KTerm::Exact), Some(KTerm::MaxIter(5)), Some(KTerm::Factor(2))]);
+    // criteria that can never fire before the candidates run out (max below k, factor 0) are accepted by the configuration
+    // like any other: the answer must still hold between one and k routes
+    let terms: Vec<Option<KTerm>> = tier.pick(vec![None, Some(KTerm::Factor(2)), Some(KTerm::MaxIter(1))], vec![None, Some(KTerm::Exact), Some(KTerm::MaxIter(5)), Some(KTerm::Factor(2)), Some(KTerm::MaxIter(1)), Some(KTerm::Factor(0)), Some(KTerm::MaxIter(0))]);
     let unders: Vec<Algo> = tier.pick(vec![Algo::Dijkstra], vec![Algo::Dijkstra, Algo::AStar(Some(1.0))]);
     let mut out = vec![];
     for k in ks.iter() {
